@@ -20,7 +20,7 @@ def run(ctx):
         gen = [("RespHeadersGen", "Gen_RespHeaders.cfg", dict(workers=1))]
     else:
         gen = [("RespHeadersGen", "Gen_RespHeaders_deep.cfg", dict(workers=1, env={}, name="gen-%d" % k, timeout=1800)) for k in range(1)]
-    standard_pipeline(ctx, sub="resp", mc=mc, gen=gen, trace=("Trace_RespHeaders", "Trace_RespHeaders.cfg"),
+    standard_pipeline(ctx, checked=True, sub="resp", mc=mc, gen=gen, trace=("Trace_RespHeaders", "Trace_RespHeaders.cfg"),
                       random_n=1500 if q else 30000, nontrivial=nontrivial, jobs=12)
     return finish(ctx, rule=RULE, exhaustive=True,
                   assumptions=["framing headers (Content-Length, Transfer-Encoding, Content-Type) are only manipulated through the body operations and drop_content",
